@@ -4,17 +4,19 @@ Executes the very definitions the theorems are about (`Smpl.Model.*`).
 Run:  lake exe driver < ops.txt     (or `lake env lean --run Driver.lean`)
 -/
 import Smpl.Drv.Codec
+import Smpl.Drv.Filter
 open Smpl.Drv
 
 def dispatch (line : String) : String :=
   match (line.splitOn " ").filter (· ≠ "") with
   | "codec" :: rest => codecOp rest
+  | "filter" :: rest => filterOp rest
   | _ => "bad-op"
 
 partial def loop (hin hout : IO.FS.Stream) : IO Unit := do
   let line ← hin.getLine
   if line.isEmpty then return ()
-  let l := if line.back == '\n' then line.dropRight 1 else line
+  let l := String.ofList (line.toList.filter fun c => c != '\n' && c != '\r')
   hout.putStrLn (dispatch l)
   loop hin hout
 
